@@ -45,6 +45,10 @@ class Result:
     not_decided: str = ""
     trusted_base: list[str] = field(default_factory=list)
     extra: dict[str, Any] = field(default_factory=dict)
+    undecided: list[dict[str, str]] = field(default_factory=list)  # constructs the rule could not classify (exit 2 unless a violation is reported)
+
+    def undecide(self, rule: str, construct: str, detail: str, where: str = "") -> None:
+        self.undecided.append({"rule": rule, "construct": construct, "detail": detail, "where": where})
 
     def add(self, rule: str, construct: str, ok: bool, detail: str = "", where: str = "", nontrivial: bool = True, kind: str = "structural") -> Obligation:
         ob = Obligation(rule, construct, bool(ok), detail, where, nontrivial, kind)
@@ -138,6 +142,7 @@ def write_evidence(res: Result, tier: str, seed: int, wall: float, new_violation
         "samples": samples,
         "rule_instances": [o.as_json() for o in obs],
         "observations_not_armed": res.observations,
+        "undecided": res.undecided,
         "analysed": res.analysed,
         "trusted_base": res.trusted_base,
         "checker_cmd": f"/venv/bin/python /verif/engine/check.py {res.property_id} --tier {tier}",
